@@ -3,7 +3,29 @@ import os
 import sys
 
 sys.path.insert(0, os.environ.get("VERIF_REPO", "/repo"))
+sys.path.insert(1, os.path.dirname(os.path.dirname(os.path.abspath(__file__))))
+import socket as _socket  # noqa: E402
 import websocket._url as U  # noqa: E402
+from harness.envpatch import EnvPatch, ModProxy  # noqa: E402
+
+
+def _not_an_ip(addr):
+    raise _socket.error("illegal IP address string passed to inet_aton")
+
+
+# Every host is treated as a NAME in this file: the C boundary socket.inet_aton is replaced - by identity, in whichever module
+# the helpers live and under whatever name, once, for the life of this process - by a function that refuses every string
+# (IP / CIDR entries are decided by N-cidr).
+_EP = EnvPatch()
+if getattr(U, "_is_ip_address", None) is not None:
+    _EP.replace(U._is_ip_address, lambda addr: False)
+_EP.replace(_socket, ModProxy(_socket, inet_aton=_not_an_ip))
+_EP.replace(_socket.inet_aton, _not_an_ip)
+_DECIDE = getattr(U, "_is_no_proxy_host")
+
+
+def _no_proxy_decision(host, entries):
+    return _DECIDE(host, entries)
 
 
 def _exempt_ref(host: str, entries) -> bool:
@@ -25,12 +47,7 @@ def dom_rule(host: str, entry: str) -> bool:
     pre: len(host) <= 4 and len(entry) <= 3
     post: _
     """
-    orig = U._is_ip_address
-    U._is_ip_address = lambda addr: False  # C boundary (socket.inet_aton); IP / CIDR entries are decided by N-cidr
-    try:
-        got = U._is_no_proxy_host(host, [entry])
-    finally:
-        U._is_ip_address = orig
+    got = _no_proxy_decision(host, [entry])
     return bool(got) == _exempt_ref(host, [entry])
 
 
@@ -41,10 +58,5 @@ def dom_rule2(host: str, e1: str, e2: str) -> bool:
     pre: len(host) <= 3 and len(e1) <= 2 and len(e2) <= 2
     post: _
     """
-    orig = U._is_ip_address
-    U._is_ip_address = lambda addr: False
-    try:
-        got = U._is_no_proxy_host(host, [e1, e2])
-    finally:
-        U._is_ip_address = orig
+    got = _no_proxy_decision(host, [e1, e2])
     return bool(got) == _exempt_ref(host, [e1, e2])
